@@ -275,3 +275,181 @@ def _shipped_n_items(name: str) -> int:
         from moptipyapps.binpacking2d.instance import Instance
         _N_ITEMS_CACHE[name] = int(Instance.from_resource(name).n_items)
     return _N_ITEMS_CACHE[name]
+
+
+# ----------------------------------------------------------------------------
+# C19: names, text forms, record tables
+# ----------------------------------------------------------------------------
+
+_ALNUM = "abcdefghijklmnopqrstuvwxyzABCDEFGHIJKLMNOPQRSTUVWXYZ0123456789"
+
+
+@st.composite
+def names(draw: Any) -> str:
+    """A name that moptipy's sanitize_name leaves unchanged: alphanumeric
+    segments joined by single underscores."""
+    segs = draw(st.lists(st.text(alphabet=_ALNUM, min_size=1, max_size=6),
+                         min_size=1, max_size=3))
+    return "_".join(segs)
+
+
+@st.composite
+def instance_text_cases(draw: Any, max_items: int = 14) -> dict:
+    """{"name", "inst": gen_bp instance case}: all size classes, repeated and
+    multi-digit values."""
+    ic = draw(gen_bp.instances(max_items=max_items))
+    if draw(st.integers(0, 3)) == 0 and len(ic["items"]) >= 1:
+        # repeat a row verbatim (equal item types with separate ids)
+        ic = dict(ic)
+        ic["items"] = [*ic["items"], list(ic["items"][0])]
+    return {"name": draw(names()), "inst": ic}
+
+
+@st.composite
+def packing_text_cases(draw: Any, max_items: int = 14) -> dict:
+    """A feasible packing: decoder output or a guillotine layout."""
+    if draw(st.booleans()):
+        ic = draw(gen_bp.instances(max_items=max_items))
+        return {"kind": "decoded", "name": draw(names()), "inst": ic,
+                "x": draw(gen_bp.signed_perm(ic)),
+                "enc": draw(st.sampled_from([1, 2]))}
+    g = draw(gen_bp.guillotine(max_bins=4, max_dim=draw(
+        st.sampled_from([9, 40, 120, 1500]))))
+    return {"kind": "layout", "name": draw(names()),
+            "inst": {"W": g["W"], "H": g["H"], "items": g["items"]},
+            "rows": g["rows"], "k": g["k"]}
+
+
+TTP_NAMES = ("circ8", "nl6", "circ12", "gal4", "bra24", "circ10", "nl8",
+             "circ4", "nl16", "circ14", "con6", "nl4", "circ40", "circ20",
+             "sup10", "gal12")
+
+
+@st.composite
+def plan_text_cases(draw: Any, have: tuple[str, ...] = TTP_NAMES) -> dict:
+    """{"inst": shipped TTP instance name, "n", "days", "plan": [[...]]}.
+
+    Values are in -n..n (what GamePlanSpace.validate admits); the plan need
+    not be a feasible schedule."""
+    name = draw(st.sampled_from(have))
+    n = int("".join(c for c in name if c.isdigit()))
+    days = 2 * (n - 1)
+    mode = draw(st.sampled_from(["rng", "rng", "const", "drawn"]))
+    if mode == "const":
+        v = draw(st.sampled_from([-n, n, 0, 1, -1]))
+        plan = [[v] * n for _ in range(days)]
+    elif mode == "drawn" and n <= 6:
+        plan = [[draw(st.integers(-n, n)) for _ in range(n)]
+                for _ in range(days)]
+    else:
+        rnd = random.Random(draw(st.integers(0, 2 ** 32 - 1)))
+        plan = [[rnd.randint(-n, n) for _ in range(n)] for _ in range(days)]
+        if draw(st.booleans()):  # a proper-looking day: everybody plays
+            for row in plan:
+                teams = list(range(1, n + 1))
+                rnd.shuffle(teams)
+                for a, b in zip(teams[::2], teams[1::2]):
+                    row[a - 1] = b
+                    row[b - 1] = -a
+    return {"inst": name, "n": n, "days": days, "plan": plan}
+
+
+@st.composite
+def ordering_text_cases(draw: Any) -> dict:
+    """An ordering instance (C20 generator) plus a drawn seed for the
+    permutation (the permutation itself depends on the merged size)."""
+    return {"o1d": draw(order1d_cases(max_len=12)),
+            "perm_seed": draw(st.integers(0, 2 ** 32 - 1)),
+            "perm_mode": draw(st.sampled_from(["rng", "identity",
+                                               "reversed"]))}
+
+
+ALGO_POOL = ("rls", "ea_1p1", "rs", "fea")
+ENC_POOL = (None, None, "ibl1", "ibl2")
+SEED_EDGES = (0, 1, 2 ** 31, 2 ** 63 - 1, 2 ** 63, 2 ** 64 - 1)
+
+
+@st.composite
+def record_tables(draw: Any, max_recs: int = 12,
+                  goal_modes: tuple[str, ...] = ("per_group", "per_record",
+                                                 "all", "none"),
+                  time_modes: tuple[str, ...] = ("distinct", "per_record",
+                                                 "all", "none")) -> dict:
+    """A table of synthetic end results over real packings.
+
+    {"insts": [{"name", "inst", "packs": [{"x", "enc"}]}],
+     "recs": [{"algo", "inst", "pack", "obj" (0..6: index into the package's
+     DEFAULT_OBJECTIVES), "enc", "seed", "li_fe", "li_t", "fe_extra",
+     "t_extra", "goal": None|number, "max_fes_extra": None|int,
+     "max_t": None|int}], "goal_mode"}
+    Records are pairwise different in (algo, inst, obj, enc, seed).
+    """
+    n_inst = draw(st.integers(1, 3))
+    insts = []
+    for i in range(n_inst):
+        ic = draw(gen_bp.instances(classes=("tiny", "small", "medium"),
+                                   max_types=4, max_mult=3, max_items=8))
+        packs = [{"x": draw(gen_bp.signed_perm(ic)),
+                  "enc": draw(st.sampled_from([1, 2]))}
+                 for _ in range(draw(st.integers(1, 2)))]
+        nm = f"inst{i}" if draw(st.booleans()) else \
+            draw(names()) + f"x{i}"
+        insts.append({"name": nm, "inst": ic, "packs": packs})
+    n_rec = draw(st.sampled_from([v for v in (6, 4, 8, 3, 12, 2, 10, 5, 7, 1,
+                                              9, 11) if v <= max_recs]))
+    algos = draw(st.lists(st.sampled_from(ALGO_POOL), min_size=1, max_size=2,
+                          unique=True))
+    objs = draw(st.lists(st.integers(0, 6), min_size=1, max_size=3,
+                         unique=True))
+    encs = draw(st.lists(st.sampled_from(ENC_POOL), min_size=1, max_size=2))
+    goal_mode = draw(st.sampled_from(goal_modes))
+    budget_mode = draw(st.sampled_from(["per_record", "all", "none"]))
+    time_mode = draw(st.sampled_from(time_modes))
+    seeds = draw(st.lists(
+        st.one_of(st.sampled_from(SEED_EDGES),
+                  st.integers(0, 2 ** 64 - 1), st.integers(0, 1000)),
+        min_size=n_rec, max_size=n_rec, unique=True))
+    goal_val = st.one_of(st.integers(-3, 400),
+                         st.integers(0, 800).map(lambda v: v / 2),
+                         st.floats(min_value=0.001, max_value=1e6,
+                                   allow_nan=False))
+    group_goal: dict[str, Any] = {}
+    recs = []
+    for r in range(n_rec):
+        algo = draw(st.sampled_from(algos))
+        ii = draw(st.integers(0, n_inst - 1))
+        obj = draw(st.sampled_from(objs))
+        enc = draw(st.sampled_from(encs))
+        if goal_mode == "none":
+            goal = None
+        elif goal_mode == "all":
+            goal = draw(goal_val)
+        elif goal_mode == "per_record":
+            goal = draw(st.one_of(st.none(), goal_val))
+        else:
+            key = f"{algo}|{ii}|{obj}|{enc}"
+            if key not in group_goal:
+                group_goal[key] = draw(st.one_of(st.none(), goal_val))
+            goal = group_goal[key]
+        mfe = None if budget_mode == "none" else (
+            draw(st.integers(0, 10 ** 6)) if budget_mode == "all" else
+            draw(st.one_of(st.none(), st.integers(0, 10 ** 6))))
+        if time_mode == "none":
+            mt = None
+        elif time_mode == "all":
+            mt = draw(st.integers(1, 10 ** 6))
+        elif time_mode == "distinct":  # pairwise different budgets
+            mt = 1000 * draw(st.integers(1, 1000)) + r
+        else:
+            mt = draw(st.one_of(st.none(), st.integers(1, 10 ** 6)))
+        recs.append({
+            "algo": algo, "inst": ii,
+            "pack": draw(st.integers(0, len(insts[ii]["packs"]) - 1)),
+            "obj": obj, "enc": enc, "seed": seeds[r],
+            "li_fe": draw(st.one_of(st.integers(1, 50),
+                                    st.integers(1, 10 ** 9))),
+            "li_t": draw(st.integers(0, 50000)),
+            "fe_extra": draw(st.integers(0, 1000)),
+            "t_extra": draw(st.integers(0, 5000)),
+            "goal": goal, "max_fes_extra": mfe, "max_t": mt})
+    return {"insts": insts, "recs": recs, "goal_mode": goal_mode}
